@@ -64,6 +64,7 @@ Inductive bshift :=
 Inductive opnd :=
 | OReg (r : areg)
 | OVReg (bits n : Z)                         (* the B / H / S / D / Q view (bits = 8 .. 128) of SIMD&FP register n *)
+| OVArr (n shift width : Z) (indexed : bool)  (* Vn with an arrangement specifier: arr_spec_offset_width, is_arr_spec_indexed *)
 | OImm32 (v : Z) (sh : option bshift)         (* v : the u64 bit pattern of the immediate *)
 | OImm64 (v : Z) (sh : option bshift)
 | OShiftReg (r : areg) (sh : bshift)
@@ -109,6 +110,9 @@ Definition operand_load (o : opnd) (out_bits : Z) : res expr :=
   match o with
   | OReg r => reg_get r
   | OVReg bits n => if bits =? 128 then Ok (EScalar (s_vreg n)) else unwrap (mk_ext Trun bits (EScalar (s_vreg n)))
+  | OVArr n shift width _ =>
+      v <- unwrap (mk_bin Shr (EScalar (s_vreg n)) (expr_const shift 128)) ;;
+      if width =? 128 then Ok v else unwrap (mk_ext Trun width v)          (* resize_zext(width, value), width <= 128 *)
   | OImm32 v sh => maybe_shift (expr_const (v mod 2 ^ 32) 32) sh out_bits
   | OImm64 v sh => maybe_shift (expr_const v 64) sh out_bits
   | OShiftReg r sh => v <- reg_get r ;; shift_ v sh out_bits
@@ -124,6 +128,36 @@ Definition operand_imm_u64 (o : opnd) : res Z :=
 Definition operand_store (o : opnd) (value : expr) : res operation :=
   match o with
   | OReg r => reg_set r value
+  | OVArr n shift width indexed =>
+      let vset (e : expr) : res operation :=
+        if 128 <? e_bits e then Panic
+        else if e_bits e =? 128 then Ok (OAssign (s_vreg n) e)
+        else z <- unwrap (mk_ext Zext 128 e) ;; Ok (OAssign (s_vreg n) z) in
+      let resize128 (e : expr) : res expr :=
+        if e_bits e =? 128 then Ok e else if e_bits e <? 128 then unwrap (mk_ext Zext 128 e) else unwrap (mk_ext Trun 128 e) in
+      if negb indexed then (r <- resize128 value ;; vset r)
+      else
+        lower <- (if 0 <? shift
+                  then t <- unwrap (mk_ext Trun shift (EScalar (s_vreg n))) ;; z <- unwrap (mk_ext Zext 128 t) ;; Ok (Some z)
+                  else Ok None) ;;
+        upper <- (if shift + width <? 128
+                  then a <- unwrap (mk_bin Shr (EScalar (s_vreg n)) (expr_const (shift + width) 128)) ;;
+                       b <- unwrap (mk_bin Shl a (expr_const (shift + width) 128)) ;; Ok (Some b)
+                  else Ok None) ;;
+        match (match lower, upper with
+               | Some x, Some y => m <- unwrap (mk_bin Or x y) ;; Ok (Some m)
+               | Some x, None | None, Some x => Ok (Some x)
+               | None, None => Ok None
+               end) with
+        | Ok None => r <- resize128 value ;; vset r
+        | Ok (Some masked) =>
+            repl <- (if e_bits value <=? width then Ok value else unwrap (mk_ext Trun width value)) ;;
+            r <- resize128 repl ;;
+            sh <- unwrap (mk_bin Shl r (expr_const shift 128)) ;;
+            o <- unwrap (mk_bin Or masked sh) ;; vset o
+        | Err e => Err e
+        | Panic => Panic
+        end
   | OVReg _ n =>                                         (* AArch64Register::set through the full V register *)
       if 128 <? e_bits value then Panic
       else if e_bits value =? 128 then Ok (OAssign (s_vreg n) value)
@@ -136,6 +170,7 @@ Definition operand_storing_width (o : opnd) : res Z :=
   match o with
   | OReg r => Ok (reg_bits r)
   | OVReg bits _ => Ok bits
+  | OVArr _ _ width _ => Ok width
   | _ => Err ECustom
   end.
 
@@ -504,6 +539,18 @@ Definition operands_of (addr : Z) (i : instr) : mnem * list opnd :=
         | PPre => OMemPreIdx base off
         | PPost => OMemPostIdxImm base off
         end])
+  | IVIns size dst src rn rd =>
+      let es := 8 * 2 ^ size in (MMov, [OVArr rd (dst * es) es true; OVArr rn (src * es) es true])
+  | IVInsG size idx rn rd =>
+      let es := 8 * 2 ^ size in (MMov, [OVArr rd (idx * es) es true; OReg (xreg_zr (size =? 3) rn)])
+  | IVUmov size idx rn rd =>
+      let es := 8 * 2 ^ size in (MMov, [OReg (xreg_zr (size =? 3) rd); OVArr rn (idx * es) es true])
+  | IVDupS size idx rn rd =>
+      let es := 8 * 2 ^ size in (MMov, [OVReg es rd; OVArr rn (idx * es) es true])
+  | IVMovV q rn rd =>
+      let w := if q then 128 else 64 in (MMov, [OVArr rd 0 w false; OVArr rn 0 w false])
+  | IVAddSubD sub rm rn rd =>
+      ((if sub then MSub else MAdd), [OVReg 64 rd; OVReg 64 rn; OVReg 64 rm])
   | ILdStOrdU size load o0 rn rt =>
       (ldst_mnem size (if load then 1 else 0),
        [OReg (xreg_zr (size =? 3) rt); OMemOffset (xreg_sp true rn) 0])
